@@ -364,10 +364,41 @@ def eval_modes(out, xs, K, scalar_ok=True, singles=None):
     return modes
 
 
+UNRESOLVED = []  # problems on which SciPy did not converge at the first solver setting (counted, not violations)
 SCALAR_EVAL_OK = True  # set by corpus_checks: evaluation at a bare scalar works (it did not before fix 9b1b78d)
 
 
-def run_ivp(spec, tfs):
+# Solver settings a caller may choose freely; a problem that SciPy cannot converge on with the first setting is retried with the next.
+#   IVP: the integration method (same tolerances);  BVP: (number of initial mesh nodes, tol).
+IVP_LADDER = [None, "DOP853", "LSODA", "Radau"]   # None = the method of the problem specification
+BVP_LADDER = [(41, BVP_SOLVER_TOL), (161, BVP_SOLVER_TOL), (161, 1e-6), (321, 1e-6)]
+SCIPY_STATUS = {}
+
+
+class scipy_status_recorder:
+    """records the status of the result object SciPy's integrators return to grid.ode (0 = converged), so that 'SciPy did not
+    converge' can be told apart from an exception of grid's own code without looking at grid's error message"""
+
+    def __enter__(self):
+        self.real = (GO.solve_ivp, GO.solve_bvp)
+        SCIPY_STATUS.clear()
+
+        def wrap(f):
+            def g(*a, **k):
+                r = f(*a, **k)
+                SCIPY_STATUS["status"] = getattr(r, "status", None)
+                SCIPY_STATUS["message"] = str(getattr(r, "message", ""))[:80]
+                return r
+            return g
+        GO.solve_ivp, GO.solve_bvp = wrap(self.real[0]), wrap(self.real[1])
+        return self
+
+    def __exit__(self, *exc):
+        GO.solve_ivp, GO.solve_bvp = self.real
+        return False
+
+
+def run_ivp(spec, tfs, setting=0):
     """solve the stated IVP (through transform spec tfs or directly) -> ({evaluation mode: values (K, n)}, check points)"""
     coeffs, fx, sol = build(spec)
     K = spec["order"]
@@ -383,7 +414,9 @@ def run_ivp(spec, tfs):
         if tf is not None:
             jets = np.array([jet_u_from_y(tf, float(x), list(jets[i])) for i, x in enumerate(pts)])
         atol = IVP_ATOL * np.maximum(np.max(np.abs(jets), axis=0), 1e-300)
-    out = call_quiet(GO.solve_ode_ivp, span, fx, coeffs, y0, tf, method=spec["method"], rtol=IVP_RTOL, atol=atol)
+    method = IVP_LADDER[setting] or spec["method"]
+    with scipy_status_recorder():
+        out = call_quiet(GO.solve_ode_ivp, span, fx, coeffs, y0, tf, method=method, rtol=IVP_RTOL, atol=atol)
     xs = np.linspace(x0, x1, 9)
     return eval_modes(out, xs, K, SCALAR_EVAL_OK, singles=None if ("scale" in spec or spec.get("directed")) else xs[::4]), xs
 
@@ -401,12 +434,13 @@ def jet_u_from_y(tf, x, yj):
     return u
 
 
-def run_bvp(spec, tfs):
+def run_bvp(spec, tfs, setting=0):
     coeffs, fx, sol = build(spec)
     K = spec["order"]
     xa, xb = spec["span"]
     tf = make_transform(tfs)
-    x = np.linspace(xa, xb, 41)
+    nodes, solver_tol = BVP_LADDER[setting]
+    x = np.linspace(xa, xb, nodes)
     ends = [xa, xb]
     if tf is not None:
         r = call_quiet(tf.transform, x)
@@ -419,8 +453,9 @@ def run_bvp(spec, tfs):
         if tf is not None:  # documented: with a transform, derivative constraints are w.r.t. the transformed variable
             yj = jet_u_from_y(tf, xe, yj)
         bd.append((side, j, yj[j]))
-    out = call_quiet(GO.solve_ode_bvp, x, fx, coeffs, bd, tf, tol=BVP_SOLVER_TOL, max_nodes=20000,
-                     initial_guess_y=np.zeros((K, x.size)), no_derivatives=False)
+    with scipy_status_recorder():
+        out = call_quiet(GO.solve_ode_bvp, x, fx, coeffs, bd, tf, tol=solver_tol, max_nodes=20000,
+                         initial_guess_y=np.zeros((K, x.size)), no_derivatives=False)
     xs = np.linspace(xa, xb, 9)
     return eval_modes(out, xs, K, SCALAR_EVAL_OK), xs
 
@@ -459,14 +494,44 @@ def check_problem(spec, results):
     runner = run_ivp if spec["problem"] == "ivp" else run_bvp
     tol = IVP_TOL if spec["problem"] == "ivp" else BVP_TOL
     vals = {}
+    ladder = IVP_LADDER if spec["problem"] == "ivp" else BVP_LADDER
+    settings = [i for i, st in enumerate(ladder) if not (st is not None and st == spec.get("method") and i > 0)]
+    converged_at = {}
     for variant, tfs in (("direct", None), ("transformed", spec["tf"])):
         if variant == "transformed" and tfs is None:
             continue
-        try:
-            modes, xs = with_timeout(SOLVE_LIMIT_S, runner, spec, tfs)
-        except Exception as e:  # noqa: BLE001
-            results.append(("raises", f"{type(e).__name__}: {str(e)[:120]}", "a solution", variant, spec))
+        # RULE.  "Within the solver tolerance" presupposes that SciPy converged.  If grid raises while SciPy's own result object reports
+        # status != 0 (recorded at the call boundary, not read from grid's message), this is non-convergence of the underlying solver at
+        # these solver settings: the SAME problem is retried through the SAME grid code with the next setting of the ladder (settings a
+        # caller may choose freely: integration method / initial mesh and tol); the first converged result is checked in full.  Only if
+        # no setting converges through the transformation while the direct solve of the equivalent problem converged at the FIRST setting
+        # is it a violation (non-convergence that appears only through grid's transformation); otherwise it is counted as unresolved.
+        # Every other exception (IndexError, TypeError, a ValueError raised before / without SciPy reporting failure, a time-out) is
+        # a finding at once, as before.
+        modes = None
+        nonconv = []
+        for si in settings:
+            try:
+                modes, xs = with_timeout(SOLVE_LIMIT_S, runner, spec, tfs, si)
+                converged_at[variant] = si
+                break
+            except Exception as e:  # noqa: BLE001
+                if not isinstance(e, SolveTimeout) and SCIPY_STATUS.get("status") not in (None, 0):
+                    nonconv.append(f"setting {ladder[si]}: SciPy status {SCIPY_STATUS.get('status')} ({SCIPY_STATUS.get('message')})")
+                    continue
+                results.append(("raises", f"{type(e).__name__}: {str(e)[:120]}", "a solution", variant, spec))
+                nonconv = None
+                break
+        if modes is None:
+            if nonconv:  # SciPy converged with no setting
+                if variant == "transformed" and converged_at.get("direct") == 0:
+                    results.append(("raises", "SciPy converges with none of the solver settings through the transformation: " + "; ".join(nonconv)[:300],
+                                    "a solution (the direct solve of the same problem converged at the first setting)", variant, spec))
+                else:
+                    UNRESOLVED.append((spec_desc(spec), variant, nonconv))
             continue
+        if nonconv:
+            UNRESOLVED.append((spec_desc(spec), variant, nonconv + [f"converged with setting {ladder[converged_at[variant]]}"]))
         v = modes["array"][0]
         vals[variant] = v
         for mode, (vm, pts) in modes.items():
@@ -703,6 +768,7 @@ def sweep(ctx: Ctx, flags: dict):
     implicit_ok, float_span_ok, li_matrix_ok = flags["implicit_ok"], flags["float_span_ok"], flags["li_matrix_ok"]
     rng = ctx.rng
     results = []
+    del UNRESOLVED[:]
     plan = directed_specs() + scaled_directed_specs() + integer_data_specs()
     n_ivp = 36 if ctx.quick else 1200
     n_bvp = 12 if ctx.quick else 300
@@ -1253,6 +1319,8 @@ def run(ctx: Ctx):
     flags = corpus_checks(ctx)
     results = sweep(ctx, flags)
     phases["sweep"] = round(time.time() - t0, 1)
+    ctx.cov["solver_nonconvergence_unresolved"] = [{"problem": d, "solve": v, "attempts": a} for d, v, a in UNRESOLVED[:20]]
+    ctx.count("solver_nonconvergence_unresolved", len(UNRESOLVED))
     t0 = time.time()
     # failing problems of the sweep: the first one per (check kind, variant, order)
     first = {}
